@@ -151,13 +151,31 @@ def build(decl, solver='ipopt', with_method=True):
         ocp = Ocp(t0=0 if t0 is None else t0, T=1 if T is None else T)
         b.ocp = ocp; b.stage = ocp
         b.T_free = decl['T']['kind'] == 'free'; b.t0_free = decl['t0']['kind'] == 'free'
-        for s in decl['states']:
-            b.x.append(ocp.state(scale=fl(s['scale'])) if fr(s['scale']) != 1 else ocp.state())
+        xb = decl.get('xblocks') or []
+        if xb:
+            # consecutive scalar model states grouped (column-major) into matrix-valued rockit states
+            b.xsyms = []
+            for (r, c) in xb:
+                X = ocp.state(r, c); b.xsyms.append(X)
+                for cc in range(c):
+                    for rr in range(r):
+                        b.x.append(X[rr, cc])
+        else:
+            for s in decl['states']:
+                b.x.append(ocp.state(scale=fl(s['scale'])) if fr(s['scale']) != 1 else ocp.state())
         for s in decl['controls']:
             b.u.append(ocp.control(scale=fl(s['scale'])) if fr(s['scale']) != 1 else ocp.control())
         for s in decl['algs']:
             b.z.append(ocp.algebraic(scale=fl(s['scale'])) if fr(s['scale']) != 1 else ocp.algebraic())
-        for p in decl['params']:
+        pb = decl.get('pblocks') or []
+        b.psyms = []
+        if pb:
+            for (r, c) in pb:
+                Pm = ocp.parameter(r, c); b.psyms.append(Pm)
+                for cc in range(c):
+                    for rr in range(r):
+                        b.p.append(Pm[rr, cc])
+        for p in decl['params'][len(b.p):]:
             b.p.append(ocp.parameter(grid=GRIDKW[p['kind']], include_last=(p['kind'] == 'cp')))
         for v in decl['vars']:
             kw = {}
@@ -165,7 +183,12 @@ def build(decl, solver='ipopt', with_method=True):
             b.v.append(ocp.variable(grid=GRIDKW[v['kind']], include_last=(v['kind'] == 'cp'), **kw))
         if decl['T']['kind'] == 'par': ocp.set_T(b.p[decl['T']['i'] - 1])
         if decl['t0']['kind'] == 'par': ocp.set_t0(b.p[decl['t0']['i'] - 1])
-        for i, e in enumerate(decl['rhs']):
+        if xb:
+            i0 = 0
+            for X, (r, c) in zip(b.xsyms, xb):
+                es = [mx(b, decl['rhs'][i0 + k]) for k in range(r * c)]
+                ocp.set_der(X, ca.reshape(ca.vertcat(*es), r, c)); i0 += r * c
+        for i, e in enumerate(decl['rhs'] if not xb else []):
             if decl['dyn'] == 'next':
                 ocp.set_next(b.x[i], mx(b, e))
             else:
@@ -178,7 +201,12 @@ def build(decl, solver='ipopt', with_method=True):
             declare_constraint(b, c)
         for e in decl['obj']:
             ocp.add_objective(mx(b, e))
+        i0 = 0
+        for Pm, (r, c) in zip(b.psyms, pb):
+            vals = [fl(decl['params'][i0 + k]['val'][0]) for k in range(r * c)]
+            ocp.set_value(Pm, ca.reshape(ca.DM(vals), r, c)); i0 += r * c
         for i, p in enumerate(decl['params']):
+            if i < i0: continue
             if p['val']:
                 ocp.set_value(b.p[i], pval(p, decl['method']['N']))
         if solver: ocp.solver(solver, {"print_time": False, "ipopt": {"print_level": 0}} if solver == 'ipopt' else {})
